@@ -6,6 +6,7 @@
    * where a residue of an input record ends up inside a record (`rowsBody_fwd`, `rowsBody_rev`).
 -/
 import AgpTpf.Proofs.C03CliFiles
+import AgpTpf.Properties.C09Route
 namespace AgpTpf.C03
 open AgpTpf AgpTpf.StreamProofs AgpTpf.WrapProofs AgpTpf.SeqProofs AgpTpf.CliNames AgpTpf.CliPlan AgpTpf.C05
 
@@ -31,10 +32,28 @@ theorem comp_clean (b : Nat) (h : b ≠ 62 ∧ b ≠ 10) : comp b ≠ 62 ∧ com
       rfl
     rw [this]; exact h
 
-theorem cleanBytes_slice (res : Bytes) (a b : Int) (h : CleanBytes res) : CleanBytes (slice res a b) := by
+theorem mem_slice_iff (res : Bytes) (a b : Int) (x : Nat) :
+    x ∈ slice res a b ↔ ∃ i : Nat, (a - 1).toNat ≤ i ∧ i < b.toNat ∧ res[i]? = some x := by
+  unfold slice slice0
+  rw [List.mem_iff_getElem?]
+  constructor
+  · rintro ⟨k, hk⟩
+    rw [List.getElem?_take] at hk
+    split at hk
+    · rw [List.getElem?_drop] at hk
+      exact ⟨(a - 1).toNat + k, by omega, by omega, hk⟩
+    · cases hk
+  · rintro ⟨i, h1, h2, h3⟩
+    refine ⟨i - (a - 1).toNat, ?_⟩
+    rw [List.getElem?_take, if_pos (by omega), List.getElem?_drop]
+    rw [show (a - 1).toNat + (i - (a - 1).toNat) = i by omega]
+    exact h3
+
+/-- a sub-interval's residues are among the interval's residues -/
+theorem slice_subset (res : Bytes) (a b a' b' : Int) (h1 : a' ≤ a) (h2 : b ≤ b') : ∀ x ∈ slice res a b, x ∈ slice res a' b' := by
   intro x hx
-  unfold slice slice0 at hx
-  exact h x (List.mem_of_mem_drop (List.mem_of_mem_take hx))
+  obtain ⟨i, i1, i2, i3⟩ := (mem_slice_iff res a b x).mp hx
+  exact (mem_slice_iff res a' b' x).mpr ⟨i, by omega, by omega, i3⟩
 
 theorem cleanBytes_rc (s : Bytes) (h : CleanBytes s) : CleanBytes (reverseComplement s) := by
   intro x hx
@@ -43,7 +62,8 @@ theorem cleanBytes_rc (s : Bytes) (h : CleanBytes s) : CleanBytes (reverseComple
   exact comp_clean y (h y (List.mem_reverse.mp hy))
 
 theorem cleanBytes_rowsBody (resOf : Str → Bytes) (rows : List Row)
-    (h : ∀ f, Row.frag f ∈ rows → CleanBytes (resOf f.name)) : CleanBytes (rowsBody resOf rows) := by
+    (h : ∀ f, Row.frag f ∈ rows → CleanBytes (slice (resOf f.name) f.start f.stop)) :
+    CleanBytes (rowsBody resOf rows) := by
   intro x hx
   unfold rowsBody at hx
   obtain ⟨l, hl, hxl⟩ := List.mem_flatten.mp hx
@@ -56,8 +76,8 @@ theorem cleanBytes_rowsBody (resOf : Str → Bytes) (rows : List Row)
   | frag f =>
     simp only [rowBody] at hxl
     split at hxl
-    · exact cleanBytes_rc _ (cleanBytes_slice _ _ _ (h f hr)) x hxl
-    · exact cleanBytes_slice _ _ _ (h f hr) x hxl
+    · exact cleanBytes_rc _ (h f hr) x hxl
+    · exact h f hr x hxl
 
 /-- the lines of a record, without their LF -/
 def recordLines (w : Nat) (name : Str) (body : Bytes) : List Bytes := (62 :: strToBytes name) :: linesOf w body
@@ -246,15 +266,41 @@ theorem rowsBody_residue (resOf : Str → Bytes) (pre post : List Row) (f : Frag
 theorem remap_frag_origin (input ptx : List Scaffold) (prefix_ : Str) (joinGap : Option Gap) (err : Int)
     (outs : List OutAsm) (stats : Stats) (hwf : C01.WFInput input)
     (h : remap input ptx prefix_ joinGap err = .ok (outs, stats)) :
-    ∀ a ∈ outs, ∀ s ∈ a.scaffolds, ∀ f, Row.frag f ∈ s.rows → ∃ F ∈ C01.inputFrags input, F.name = f.name := by
+    ∀ a ∈ outs, ∀ s ∈ a.scaffolds, ∀ f, Row.frag f ∈ s.rows →
+      ∃ F ∈ C01.inputFrags input, F.name = f.name ∧ F.start ≤ f.start ∧ f.start ≤ f.stop ∧ f.stop ≤ F.stop := by
   intro a ha s hs f hr
   have hp := (C01.remap_partitions input ptx prefix_ joinGap err outs stats hwf h).2
   have hm : f.keyTuple ∈ C01.outputTriples outs := by
     unfold C01.outputTriples
     refine List.mem_flatMap.mpr ⟨s, List.mem_flatMap.mpr ⟨a, ha, hs⟩, ?_⟩
     exact List.mem_map.mpr ⟨f, C01.mem_fragmentsOf.mpr hr, rfl⟩
-  obtain ⟨_, F, hF, hn, _, _⟩ := hp _ hm
-  exact ⟨F, hF, hn⟩
+  obtain ⟨h1, F, hF, hn, h2, h3⟩ := hp _ hm
+  exact ⟨F, hF, hn, h2, h1, h3⟩
+
+/-- no output scaffold of `remap` is empty (any input): it carries the rows of a fused scaffold -/
+theorem remap_rows_nonempty (input ptx : List Scaffold) (prefix_ : Str) (joinGap : Option Gap) (err : Int)
+    (outs : List OutAsm) (stats : Stats) (h : remap input ptx prefix_ joinGap err = .ok (outs, stats)) :
+    ∀ a ∈ outs, ∀ s ∈ a.scaffolds, s.rows ≠ [] := by
+  obtain ⟨b, _, haf⟩ := C09.remap_split input ptx prefix_ joinGap err outs stats h
+  intro a ha s hs
+  obtain ⟨s0, hs0, hnn, _⟩ := (C09.assembliesFused_route input b outs stats haf).2.2 a ha s hs
+  rw [(C09.noName_fields hnn).1]
+  exact (C01.fuse_gaps b s0 hs0).2
+
+/-- strict rows have positive lengths, so a non-empty scaffold has a positive length -/
+theorem rowsLength_pos : ∀ (rows : List Row), (∀ r ∈ rows, C06.RowStrict r) → rows ≠ [] → 1 ≤ rowsLength rows
+  | [], _, h => absurd rfl h
+  | r :: rest, hs, _ => by
+    have hr : 1 ≤ r.length := by
+      have := hs r (by simp)
+      cases r with
+      | frag f => simp only [C06.RowStrict] at this; simp only [Row.length, Fragment.length]; omega
+      | gap g => simp only [C06.RowStrict] at this; simp only [Row.length]; omega
+    have hrest : 0 ≤ rowsLength rest := by
+      cases rest with
+      | nil => simp [rowsLength, sumInts]
+      | cons x t => have := rowsLength_pos (x :: t) (fun y hy => hs y (by simp [hy])) (by simp); omega
+    rw [C06.rowsLength_cons]; omega
 
 theorem strToBytes_inj (a b : Str) (h : strToBytes a = strToBytes b) : a = b := by
   unfold strToBytes at h
